@@ -40,7 +40,7 @@ theorem rinv_closedQ (cfg : NCfg) (sc : Script) (hwf : cfg.states.WF = true) (hR
     | ok r =>
       simp only [hr] at h
       obtain ⟨s1, h1, c1, b1, seg1, g1, f1⟩ := exitAll_busy cfg sub sc hR hT hsub x r.exits
-        { s with glog := s.glog ++ [.exec tr] ++ calls } hb
+        { s with glog := s.glog ++ [.exec tr] ++ calls, exited := s.exited ++ r.exitNames } hb
       obtain ⟨s2, h2, c2, _, seg2, g2, f2⟩ := enterAll_busy cfg sub sc hR hT hsub x r.enters
         { s1 with conf := r.tree } b1
       simp only [h1, Res.bind, h2, Res.state?, Option.some.injEq] at h
